@@ -104,7 +104,8 @@ def maximal(scripts: list[list]) -> list[list]:
     return [s for s in scripts if json.dumps(s) not in pref]
 
 
-def to_script(ops: list, base: dict, *, seed: int, verbose=None, saving=None, njobs: int = 1, prec: int = 3) -> dict:
+def to_script(ops: list, base: dict, *, seed: int, verbose=None, saving=None, njobs: int = 1, prec: int = 3,
+              shape: tuple | None = None) -> dict:
     """operation list (TLC behaviour) -> concrete script"""
     sops, losses, faults, agent = [], [], [], []
     for op in ops:
@@ -126,6 +127,9 @@ def to_script(ops: list, base: dict, *, seed: int, verbose=None, saving=None, nj
            "saving": base["savings"][0] if saving is None else saving, "seed": seed, "njobs": njobs, "prec": prec}
     if any(o[0] in ("mkckpt", "restore") for o in sops):
         cfg["saving"] = True
+    # shape of the simulated series: (N, D, length of the real series) - varied pseudo-randomly with the seed unless given
+    n, d, nreal = shape if shape is not None else [(8, 1, 8), (9, 2, 9), (8, 3, 8), (10, 2, 8), (8, 1, 8)][seed % 5]
+    cfg.update({"N": n, "D": d, "Nreal": nreal})
     return {"cfg": cfg, "ops": sops, "loss": {"seq": losses, "default": base["lossvals"][-1]}, "faults": faults,
             "agent": agent or [0], "tlc_ops": ops}
 
